@@ -186,6 +186,8 @@ def cmdTgRender (args0 : List String) : String :=
     | some t, some r, some ax, some dt =>
       let kd := kd == "1"
       match fn with
+      | "nsum" => showOptTG (sumNullableGraph x (.inp 1) t r ax kd)
+      | "nprod" => showOptTG (prodNullableGraph x (.inp 1) t r ax kd)
       | "sum" => showOptTG (sumGraph x t dt r ax kd)
       | "prod" => showOptTG (prodGraph x t dt r ax kd)
       | "min" => (minGraph x t r ax kd).render
